@@ -126,6 +126,20 @@ def run(ctx):
         "String/FromString/Comma/CheckedAs belong to C04 and are not modelled here",
     ]
     ctx.lean(props=["Props.C03"], drivers=["drv_c03"])
+    # Second tie (translator): the straight-line integer functions of xmath/fixed/f64 and the configurations of
+    # xmath/fixed are regenerated as Lean definitions from the typed SSA form of the working tree on every run
+    # (gossa/ssagen, lean/Generated/SSA_F64.lean) and proved equal to the model (lean/Props/C03Gen.lean).  Separate
+    # build and audit, wall-clock limit, named failing theorem, restore of the tracked file: vlib/gentie.py.
+    ctx.modelled.append(
+        "translator tie: the generic bodies of f64.Int[T] Add Sub Mul Div Mod Abs Trunc Ceil Round Min Max Inc Dec, "
+        "Multiplier, MaxDecimalDigits, MaxSafeMultiply and Places()/Multiplier() of fixed.D1..D16 are regenerated as Lean "
+        "definitions over BitVec 64 (Generated/SSA_F64.lean, written by gossa/ssagen from the working tree on every run; "
+        "the type parameter T becomes the dictionary (T.Multiplier(), T.Places()) on the zero value) and proved equal to "
+        "the hand-written model through toInt (Props/C03Gen.lean; Mul by its specification under the hypotheses of the "
+        "property); From/As (reflect kind switch) and the text functions are outside the fragment; trusted here: "
+        "golang.org/x/tools/go/ssa and the instruction-by-instruction translation in gossa/main.go")
+    from vlib import gentie
+    gentie.run(ctx, target="f64", generated="SSA_F64.lean", module="Props.C03Gen", key="f64", namespace="C03Gen")
     ctx.harness("./cmd/c03", overlay=OVERLAY)
     thm = ("C03.f64_mul_spec / f64_div_spec / f64_mod_spec / f64_trunc_spec / f64_ceil_spec / f64_round_spec / "
            "f64_from_int_exact / f64_as_int_exact (and the f128_ twins), f64_f128_agree, mul_rational … : the model "
